@@ -136,13 +136,15 @@ func H_helptext() {
 	}
 	// (description lines, environment list, HideValue) variants of a declaration
 	variant := func(tag string) (string, string, bool) {
-		switch vChoice(tag+".variant", 4) {
+		switch vChoice(tag+".variant", 5) {
 		case 0:
 			return vWord(tag+"desc", wl), "", false
 		case 1:
 			return vWord(tag+"desc", wl) + "\n" + vWord(tag+"desc", wl), "AE", false
 		case 2:
 			return vWord(tag+"desc", wl), "AE BE", true
+		case 3:
+			return vWord(tag+"desc", wl), "AE  BE\tCE", false // names separated by several blanks / a tab
 		}
 		return vWord(tag+"desc", wl), "", true
 	}
@@ -166,6 +168,13 @@ func H_helptext() {
 			c.Strings(StringsArg{Name: "DST", Desc: d, Value: []string{"p", "q"}})
 			argLines = append(argLines, vRowLines("DST", d, "", "[\"p\", \"q\"]", false)...)
 			specParts = append(specParts, "DST")
+		}
+		if narg >= 3 {
+			// a non-empty default made of blanks is still a default to show
+			d := vWord("argdesc", wl)
+			c.String(StringArg{Name: "PAD", Desc: d, Value: " "})
+			argLines = append(argLines, vRowLines("PAD", d, "", "\" \"", false)...)
+			specParts = append(specParts, "PAD")
 		}
 		// options: up to 3 from the pool, types and defaults of every kind
 		var optLines []string
